@@ -5,7 +5,8 @@ tables that are rescaled in place on every evaluation).  Simulated clients issue
 seeded operation sequences against a pool of 1-3 instances -- construct (date
 as float / int / datetime.date / None), magnetic_field with an explicit date,
 with date=None (keep the instance's date), with the date omitted (default),
-reset_coefficients, element reads -- interleaved with *calendar faults*:
+reset_coefficients, reassignment of the frame attribute, element reads -- interleaved
+with *calendar faults*:
 clock jumps forwards and backwards by days to years, biased to straddle
 2019-12-31/2020-01-01, 2024-12-31/2025-01-01 and tenth-of-year rounding
 boundaries, and to happen between "import" (boot date) and first use.
@@ -121,8 +122,10 @@ class Check:
                 ops.append({'op': 'field', 'i': i, 'date': self._gen_date(rnd, ('float', 'date', 'keep', 'keep', 'omit', 'int')), 'lat': lat, 'lon': lon, 'h': h})
             elif r < 0.75:
                 ops.append({'op': 'reset', 'i': i, 'date': self._gen_date(rnd, ('float', 'date', 'none'))})
-            elif r < 0.85:
+            elif r < 0.82:
                 ops.append({'op': 'read', 'i': i})
+            elif r < 0.88:
+                ops.append({'op': 'frame', 'i': i, 'frame': rnd.choice(['NED', 'ENU', 'enu', 'ned'])})     # the documented attribute is reassigned
             else:
                 ops.append({'op': 'jump', 'to': self._jump_target(rnd)})
         return {'ops': ops}
@@ -288,6 +291,9 @@ class Check:
                         continue
                     if not ok:
                         break
+                elif kind == 'frame':
+                    inst[i].frame = op['frame']
+                    model[i]['frame'] = op['frame'].upper()
                 elif kind == 'reset':
                     d = op['date']
                     inst[i].reset_coefficients(to_arg(d))
